@@ -205,17 +205,8 @@ pub fn run(a: &Args) -> Report {
             }
         };
         'periods: for period in [255u64, 256, 65_535, 65_536] {
-            if !run_one(&large, &all_large, &mut fixed, &mut calls, "large registry, everything accepted") {
-                break;
-            }
-            for k in 0..period - 1 {
-                let r = &small[(k % 4) as usize];
-                let acc: Vec<u32> = if k % 3 == 0 { vec![0] } else { (0..r.types.len() as u32).collect() };
-                if !run_one(r, &acc, &mut fixed, &mut calls, "small registry in between") {
-                    break 'periods;
-                }
-            }
             // a call whose filter fails half-way (caught): what it retained so far must not be remembered by the next call
+            // (placed before the period starts, so that the two visits of the large registry stay exactly `period` calls apart)
             {
                 let mut answered = 0u32;
                 let mut victim = large.clone();
@@ -232,6 +223,16 @@ pub fn run(a: &Args) -> Report {
                     fixed.count("retain_calls_aborted_by_a_failing_filter", 1);
                 }
                 calls += 1;
+            }
+            if !run_one(&large, &all_large, &mut fixed, &mut calls, "large registry, everything accepted") {
+                break;
+            }
+            for k in 0..period - 1 {
+                let r = &small[(k % 4) as usize];
+                let acc: Vec<u32> = if k % 3 == 0 { vec![0] } else { (0..r.types.len() as u32).collect() };
+                if !run_one(r, &acc, &mut fixed, &mut calls, "small registry in between") {
+                    break 'periods;
+                }
             }
             // exactly `period` calls after its ids were last touched
             let last = vec![large.types.len() as u32 - 1, (large.types.len() / 2) as u32];
